@@ -1,6 +1,7 @@
 package main
 
 import (
+	"container/list"
 	"encoding/json"
 	"errors"
 	"fmt"
@@ -222,6 +223,19 @@ func c02Items() []func() interface{} {
 		func() interface{} { return errors.New("boom") },
 		func() interface{} { x := [][]byte{[]byte("r0"), nil, []byte("r2")}; return &x },
 		func() interface{} { x := [][]int{{1, 2}, {3}}; return &x },
+		// a list.List with referable elements, byte arrays (by value and behind a pointer), a registered and a
+		// non-ASCII struct
+		func() interface{} {
+			l := list.New()
+			l.PushBack("in-list")
+			l.PushBack("in-list")
+			l.PushBack(1.5)
+			return l
+		},
+		func() interface{} { return [4]byte{1, 2, 3, 4} },
+		func() interface{} { return &[3]byte{7, 8, 9} },
+		func() interface{} { return &gen.OneMap{M: map[string]int{"one": 1}} },
+		func() interface{} { return &gen.Ünï{Ключ: 3, A名: "名"} },
 	}
 }
 
